@@ -1,5 +1,5 @@
 #!/usr/bin/env python3
-"""tools_store_seeded.py [ids…] — copies confirmed seeded changes from /tmp/mut_out_<id>/ into
+"""tools_store_seeded.py [--prefix /tmp/m3_out_] [--offset 3] [ids…] — copies confirmed seeded changes from /tmp/mut_out_<id>/ into
 /verif/seeded/<id>-<i>/ (patch.diff, demo/, meta.json). meta.json = the author's description +
 my confirmation + every trial of the checks against it recorded in seeded/LOG.jsonl (in order, so
 a change missed first and caught after a check was strengthened shows both)."""
@@ -21,10 +21,16 @@ def trials():
 
 
 def main():
-    ids = sys.argv[1:] or sorted({os.path.basename(d)[len("mut_out_"):] for d in glob.glob("/tmp/mut_out_C*")})
+    args = sys.argv[1:]
+    prefix, offset = "/tmp/mut_out_", 0
+    if "--prefix" in args:
+        i = args.index("--prefix"); prefix = args[i + 1]; del args[i:i + 2]
+    if "--offset" in args:
+        i = args.index("--offset"); offset = int(args[i + 1]); del args[i:i + 2]
+    ids = args or sorted({os.path.basename(d)[len(os.path.basename(prefix)):] for d in glob.glob(prefix + "C*")})
     by = trials()
     for pid in ids:
-        src = f"/tmp/mut_out_{pid}"
+        src = f"{prefix}{pid}"
         for i in (1, 2, 3):
             patch = os.path.join(src, f"patch_{i}.diff")
             if not os.path.exists(patch):
@@ -33,7 +39,7 @@ def main():
             if not ts:
                 print(pid, i, "no trial recorded; skipped")
                 continue
-            dst = os.path.join(ROOT, "seeded", f"{pid}-{i}")
+            dst = os.path.join(ROOT, "seeded", f"{pid}-{i + offset}")
             shutil.rmtree(dst, ignore_errors=True)
             os.makedirs(dst)
             shutil.copy(patch, os.path.join(dst, "patch.diff"))
